@@ -1091,6 +1091,8 @@ func ruleStackAPI(c *Ctx, rule string, trusted map[string]string) {
 				ob.OKnt("every dereference is dominated by a nil test of the result or an IsEmpty()/Size() test of " + recv)
 			} else if why, ok := trusted[fnName(fn)]; ok {
 				ob.Exc("trusted (frozen table): " + why)
+			} else if why, ok := trustedParent(fn, trusted); ok {
+				ob.Exc("trusted (frozen table, a closure of the function): " + why)
 			} else if why := c.trustedThroughOwner(fn, trusted); why != "" {
 				ob.Exc("trusted (frozen table, through the only function that reaches this helper): " + why)
 			} else {
@@ -1697,6 +1699,20 @@ func ruleReaderPerSearch(c *Ctx, rule string) {
 			if ctors[x.Call.StaticCallee()] {
 				*calls = append(*calls, x)
 				return true
+			}
+			// `open := files.ReaderFromFile; ...; open(target)`: a call through a function value all of whose targets are constructors
+			if x.Call.StaticCallee() == nil && !x.Call.IsInvoke() {
+				cs := c.calleesOf(x)
+				all := len(cs) > 0
+				for _, callee := range cs {
+					if !ctors[callee] {
+						all = false
+					}
+				}
+				if all {
+					*calls = append(*calls, x)
+					return true
+				}
 			}
 			return false
 		case *ssa.Phi:
@@ -2907,4 +2923,14 @@ func exhaustedEnumEdges(fn *ssa.Function) map[[2]*ssa.BasicBlock]bool {
 		}
 	}
 	return dead
+}
+
+// trustedParent: fn is a closure (of a closure ...) of a function listed in the table.
+func trustedParent(fn *ssa.Function, trusted map[string]string) (string, bool) {
+	for p := fn.Parent(); p != nil; p = p.Parent() {
+		if why, ok := trusted[fnName(p)]; ok {
+			return why, true
+		}
+	}
+	return "", false
 }
